@@ -229,6 +229,28 @@ def build():
     one(r"_\s*=>\s*\{\s*return\s+Err\(AlgorithmError::Unsupported\);", dgf, "digest: other types unsupported")
     defs.append(("dnskey_rrset_verified_with_ds_key", "bool", "true"))
 
+    # ---- validity of cached nodes: which TTLs / signature lifetimes limit a secure node
+    def limited(body, pat, what):
+        k = len(re.findall(pat, body))
+        if k > 1:
+            raise GenError("%s: limit applied %d times" % (what, k))
+        return "true" if k == 1 else "false"
+    SIGL = r"let\s+sig_ttl\s*=\s*ttl_for_sig\(sig\)\.into_duration\(\);\s*let\s+ttl\s*=\s*min\(ttl,\s*sig_ttl\);"
+    defs.append(("anchor_node_limited_by_sig", "bool", limited(ta, SIGL, "trust_anchor signature lifetime")))
+    defs.append(("anchor_node_limited_by_dnskey_ttl", "bool", limited(ta, r"let\s+ttl\s*=\s*config\.max_node_validity;\s*let\s+dnskey_ttl\s*=\s*dnskeys\.min_ttl\(\)\.into_duration\(\);\s*let\s+ttl\s*=\s*min\(ttl,\s*dnskey_ttl\);", "trust_anchor DNSKEY TTL")))
+    if len(re.findall(r"valid_for:\s*ttl,", ta)) + len(re.findall(r"Node::new_delegation\(\s*ta_owner,\s*ValidationState::Secure,\s*\w+,\s*None,\s*ttl,?\s*\)", ta)) != 1:
+        raise GenError("trust_anchor: construction of the secure node not recognised")
+    defs.append(("child_node_limited_by_dnskey_sig", "bool", limited(cn, SIGL, "create_child_node DNSKEY signature lifetime")))
+    defs.append(("child_node_limited_by_dnskey_ttl", "bool", limited(cn, r"let\s+dnskey_ttl\s*=\s*dnskey_group\.min_ttl\(\)\.into_duration\(\);\s*let\s+ttl\s*=\s*min\(ttl,\s*dnskey_ttl\);", "create_child_node DNSKEY TTL")))
+    defs.append(("child_node_limited_by_ds", "bool", limited(cn, r"let\s+ds_ttl\s*=\s*ds_group\.min_ttl\(\)\.into_duration\(\);\s*let\s+ttl\s*=\s*min\(parent_ttl,\s*ds_ttl\);\s*let\s*\(state,\s*_wildcard,\s*ede,\s*sig_ttl,\s*_\)\s*=\s*ds_group\s*\.validate_with_node\(node,\s*&self\.isig_cache,\s*&self\.config\)\s*\.await;\s*let\s+ttl\s*=\s*min\(ttl,\s*sig_ttl\);", "create_child_node DS TTL and signature lifetime")))
+    one(r"return\s+Ok\(Node::new_delegation\(\s*key_name,\s*ValidationState::Secure,\s*dnskey_vec,\s*None,\s*ttl,?\s*\)\);", cn, "create_child_node secure node")
+    vwn = fn_body(grp, "validate_with_node")
+    defs.append(("group_ttl_limited_by_sig", "bool", limited(vwn, r"let\s+sig_ttl\s*=\s*ttl_for_sig\(sig_rec\);[^;]*;\s*let\s+ttl\s*=\s*min\(ttl,\s*sig_ttl\.into_duration\(\)\);", "validate_with_node signature lifetime")))
+    tfs2 = fn_body(ut, "ttl_for_sig") if False else None
+    nd = strip_comments(read("src/dnssec/validator/context.rs"))
+    one(r"pub\s+fn\s+expired\(&self\)\s*->\s*bool\s*\{\s*let\s+elapsed\s*=\s*self\.created_at\.elapsed\(\);\s*elapsed\s*>\s*self\.valid_for\s*\}", nd, "Node::expired")
+    one(r"let\s+ce\s*=\s*self\.node_cache\.get\(name\)\.await\?;\s*if\s+ce\.expired\(\)\s*\{\s*return\s+None;\s*\}", nd, "cache_lookup drops expired nodes")
+
     # ---- NSEC3 closest-encloser walk: the candidate flag is reset whenever a name is neither matched nor usable
     nx3 = fn_body(src, "nsec3_for_not_exists")
     if len(re.findall(r"maybe_ce_exists\s*=\s*true;", nx3)) != 2 or len(re.findall(r"maybe_ce_exists\s*=\s*false;", nx3)) != 3:
